@@ -20,7 +20,9 @@ RULE = (
     "repetition, alternation, ^/$ anchored, with a space, zero-width look-ahead, no match) or by offset/length "
     "(node boundaries, 0, end, beyond; length 0, short, longer than the node), set_bookmark (position int / "
     "(int,int) / before / after / content / role), set_reference_mark (position / before / after / content), "
-    "insert_note(after=), insert_annotation (before / after / position / content); then removals: "
+    "insert_note(after=), insert_annotation (before / after / position / content), the index of the match to "
+    "use being 0, 1, 2 or -1 (the last); set_reference_mark_end / insert_annotation_end moving or creating the "
+    "end of an existing mark (before / after / position); then removals: "
     "remove_spans, remove_links, remove_span(el), remove_link(el), delete of an inline element or mark. One "
     "evaluation = one operation judged. Class = (operation, address kind, where the address falls relative to "
     "the node layout: in text / in tail / inside span / at node start / at node end / no match / beyond, "
@@ -53,6 +55,7 @@ NS = 'xmlns:text="urn:oasis:names:tc:opendocument:xmlns:text:1.0" xmlns:office="
 WORDS = ["alpha", "beta", "gamma", "ab", "abab", "a", "b", "delta"]
 REGEXES = [("literal", "beta"), ("class", "[ab]+"), ("repeat", "a+"), ("alt", "alpha|gamma"), ("anchor^", "^alpha"), ("anchor$", "gamma$"), ("space", "a b"), ("literal2", "ab"), ("nomatch", "zzz"), ("lookahead", "(?=beta)"), ("word", r"\w+")]
 TX = odftext.TX
+OF = "{%s}" % odftext.OFFICE
 
 
 def gen_pieces(rng):
@@ -168,6 +171,51 @@ def t_before(root, target):
     return found[0]
 
 
+def t_before_skipping(root, target, skip_ids):
+    """Like t_before, but text inside the elements of skip_ids (new opaque marks) does not count."""
+    count = 0
+    found = [None]
+
+    def walk(e, counting):
+        nonlocal count
+        if e.text and counting:
+            count += len(e.text)
+        for ch in e:
+            if ch is target:
+                found[0] = count
+                return True
+            if isinstance(ch.tag, str) and walk(ch, counting and id(ch) not in skip_ids):
+                return True
+            if ch.tail and counting:
+                count += len(ch.tail)
+        return False
+
+    walk(root, True)
+    return found[0]
+
+
+def in_annotation(owner, is_text):
+    """The text node lies inside an office:annotation (marks are addressed in the main text only)."""
+    e = owner if is_text else owner.getparent()
+    while e is not None:
+        if isinstance(e.tag, str) and e.tag == OF + "annotation":
+            return True
+        e = e.getparent()
+    return False
+
+
+def main_matches(tn, rx):
+    """[(start, end)] of the matches of rx in each main-text node, in main-text coordinates."""
+    ms = []
+    pos = 0
+    for s_, owner, is_text in tn:
+        if in_annotation(owner, is_text):
+            continue
+        ms += [(pos + m.start(), pos + m.end()) for m in rx.finditer(s_)]
+        pos += len(s_)
+    return ms
+
+
 def where(tn, offset):
     """Situation of an offset in the text-node layout."""
     pos = 0
@@ -197,6 +245,10 @@ def snapshot(p):
 
 
 def gen_op(rng, snap, k):
+    if rng.random() < 0.15:
+        mv = gen_move_end(rng, snap, k)
+        if mv is not None:
+            return mv
     T = "".join(s for s, _o, _t in snap["tn"])
     name = rng.choice(["set_span", "set_span", "set_link", "set_bookmark", "set_reference_mark", "insert_note", "insert_annotation"])
     op = {"op": name, "k": k}
@@ -226,9 +278,33 @@ def gen_op(rng, snap, k):
             op["role"] = rng.choice(["start", "end"])
     elif mode == "position2":
         a = rng.randint(0, max(len(T) - 1, 0))
-        op["position"] = [a, rng.randint(a, len(T))]
+        op["position"] = [a, rng.choice([rng.randint(a, len(T)), rng.randint(a, len(T)), len(T) + rng.randint(1, 40)])]
     else:
-        op["which"] = rng.choice([0, 0, 1])
+        op["which"] = rng.choice([0, 0, 1, 2, -1, -1])
+    return op
+
+
+def gen_move_end(rng, snap, k):
+    """Move (or create) the end of an existing reference mark / annotation, or None when the paragraph has none."""
+    cands = []
+    for i, e in enumerate(snap["old"]):
+        local = e.tag.rpartition("}")[2]
+        if local in ("reference-mark", "reference-mark-start") and e.getparent() is not None:
+            cands.append(("set_reference_mark_end", i))
+        elif local == "annotation" and e.get(OF + "name"):
+            cands.append(("insert_annotation_end", i))
+    if not cands:
+        return None
+    name, idx = rng.choice(cands)
+    T = "".join(s for s, _o, _t in snap["tn"])
+    op = {"op": name, "k": k, "target": idx}
+    mode = rng.choice(["before", "after", "after", "position"])
+    kind, rx = rng.choice(REGEXES[:9])
+    op.update(address=mode, regex=rx, rkind=kind)
+    if mode == "position":
+        op["position"] = rng.choice([0, 1, len(T) // 2, max(len(T) - 1, 0), len(T)])
+    else:
+        op["which"] = rng.choice([0, 0, 1, -1])
     return op
 
 
@@ -246,6 +322,16 @@ def apply_op(p, op):
         return p.set_link(f"http://l/{k}", offset=op["offset"], length=op["length"])
     a = op["address"]
     kw = {}
+    if o in ("set_reference_mark_end", "insert_annotation_end"):
+        from odfdo import Element
+
+        olds = [e for e in node(p).iter() if isinstance(e.tag, str) and e is not node(p)]
+        target = Element.from_tag(olds[op["target"]])
+        if a == "position":
+            kw["position"] = op["position"]
+        else:
+            kw.update({a: op["regex"], "position": op["which"]})
+        return getattr(p, o)(target, **kw)
     if a in ("position", "role"):
         kw["position"] = op["position"]
         if a == "role":
@@ -293,6 +379,15 @@ def judge_insertion(p, op, before, exc):
     # every pre-existing element survives with its attributes
     alive = {id(e) for e in n.iter()}
     lost = [e.tag.rpartition("}")[2] for e in before["old"] if id(e) not in alive]
+    moving = op["op"] in ("set_reference_mark_end", "insert_annotation_end")
+    if moving:
+        # the former end of that very mark is replaced by design
+        tgt = before["old"][op["target"]]
+        tname = tgt.get(TX + "name") or tgt.get(OF + "name")
+        endtag = "reference-mark-end" if op["op"] == "set_reference_mark_end" else "annotation-end"
+        former = [e for e in before["old"] if id(e) not in alive and e.tag.rpartition("}")[2] == endtag and (e.get(TX + "name") or e.get(OF + "name")) == tname]
+        for e in former[:1]:
+            lost.remove(endtag)
     if lost:
         out.append((f"existing-element-lost:{op['op']}", {"lost": lost[:4]}))
     news = [e for e in n.iter() if isinstance(e.tag, str) and e is not n and id(e) not in {id(x) for x in before["old"]}]
@@ -332,30 +427,68 @@ def judge_insertion(p, op, before, exc):
         # marks: position checks in text-node coordinates
         marks = [e for e in news if e.getparent() is not None and e.tag.rpartition("}")[2] in ("bookmark", "bookmark-start", "bookmark-end", "reference-mark", "reference-mark-start", "reference-mark-end", "note", "annotation", "annotation-end")]
         a = op["address"]
+        if moving:
+            marks = [e for e in marks if e.tag.rpartition("}")[2] == endtag]
+            ends_now = [e for e in n.iter() if isinstance(e.tag, str) and e.tag.rpartition("}")[2] == endtag and (e.get(TX + "name") or e.get(OF + "name")) == tname]
+            if len(ends_now) != 1:
+                out.append((f"end-mark-count:{op['op']}", {"count": len(ends_now), "xml_after": xml_after[-400:]}))
         if not marks:
             outcome = "no-mark"
+        annots = {id(e) for e in n.iter(OF + "annotation")}
+        tn_eff = before["tn"]
+        if moving and former:
+            # the former end is dropped first: the address is resolved in the paragraph without it
+            shadow = etree.fromstring(before["xml"])
+            olds = [e for e in shadow.iter() if isinstance(e.tag, str) and e is not shadow]
+            fe = olds[[id(e) for e in before["old"]].index(id(former[0]))]
+            tail, par, prev = fe.tail, fe.getparent(), fe.getprevious()
+            par.remove(fe)
+            if tail:
+                if prev is not None:
+                    prev.tail = (prev.tail or "") + tail
+                else:
+                    par.text = (par.text or "") + tail
+            tn_eff = text_nodes(shadow)
+        Tm = "".join(s_ for s_, o_, t_ in tn_eff if not in_annotation(o_, t_))
         if a == "position" and marks and op["op"] != "insert_note":
-            tb = t_before(n, marks[0])
-            # text inside a new opaque mark is not paragraph text: T coordinates exclude it
-            if tb is not None and tb != min(op["position"], len(T)) and not _inside_new(marks[0], news):
+            tb = t_before_skipping(n, marks[0], annots)
+            # text inside an annotation or a new opaque mark is not main text: the coordinates exclude it
+            if tb is not None and tb != min(op["position"], len(Tm)) and not _inside_new(marks[0], news):
                 out.append((f"mark-at-wrong-position:{op['op']}", {"position": op["position"], "found_at": tb, "xml_after": xml_after[-400:]}))
         if a in ("before", "after") and marks:
             rx = re.compile(op["regex"])
-            # matches are searched in each text node (anchors are relative to the node)
-            ms = []
-            pos = 0
-            for s_, owner, is_text in before["tn"]:
-                # documented text scope of marks: descendant::text()[not(parent::office:annotation)]
-                xp_parent = owner if is_text else owner.getparent()
-                skip = xp_parent is not None and isinstance(xp_parent.tag, str) and xp_parent.tag.endswith("}annotation")
-                if not skip:
-                    ms += [(pos + m.start(), pos + m.end()) for m in rx.finditer(s_)]
-                pos += len(s_)
-            tb = t_before(n, marks[0])
+            # matches are searched in each main-text node (anchors are relative to the node)
+            ms = main_matches(tn_eff, rx)
+            tb = t_before_skipping(n, marks[0], annots)
+            w = op.get("which", 0) if op["op"] != "insert_note" else 0  # insert_note takes no index
             if ms and tb is not None and not _inside_new(marks[0], news):
                 cand = {(m[0] if a == "before" else m[1]) for m in ms}
                 if tb not in cand:
                     out.append((f"mark-not-at-a-match:{op['op']}:{a}", {"regex": op["regex"], "at": tb, "match_positions": sorted(cand)[:8], "xml_after": xml_after[-400:]}))
+                else:
+                    # "the position value is the index of matching place to use", -1 = the last one
+                    if w >= len(ms):
+                        out.append((f"mark-placed-for-an-index-beyond-the-matches:{op['op']}:{a}", {"regex": op["regex"], "which": w, "matches": len(ms)}))
+                    else:
+                        m = ms[w]
+                        e = m[0] if a == "before" else m[1]
+                        if tb != e:
+                            out.append((f"mark-not-at-the-indexed-match:{op['op']}:{a}", {"regex": op["regex"], "which": w, "at": tb, "expected": e, "match_positions": sorted(cand)[:8], "xml_before": before["xml"][-400:], "xml_after": xml_after[-400:]}))
+                outcome += f":which={w}/{min(len(ms), 3)}"
+        if a == "content" and marks and isinstance(op.get("which"), int):
+            ms = main_matches(before["tn"], re.compile(op["regex"]))
+            w = op["which"]
+            starts = [e for e in marks if e.tag.rpartition("}")[2] in ("bookmark-start", "reference-mark-start", "annotation")]
+            ends = [e for e in marks if e.tag.rpartition("}")[2] in ("bookmark-end", "reference-mark-end", "annotation-end")]
+            if ms and w < len(ms) and starts and ends and not _inside_new(starts[0], [x for x in news if x is not starts[0]]):
+                newids = {id(x) for x in news} | annots
+                tbs = t_before_skipping(n, starts[0], newids)
+                tbe = t_before_skipping(n, ends[0], newids)
+                if tbs != ms[w][0]:
+                    out.append((f"range-start-not-at-the-indexed-match:{op['op']}", {"regex": op["regex"], "which": w, "at": tbs, "expected": ms[w][0], "xml_before": before["xml"][-400:], "xml_after": xml_after[-400:]}))
+                elif not op["rkind"].startswith("anchor") and tbe != ms[w][1]:
+                    out.append((f"range-end-not-at-the-indexed-match:{op['op']}", {"regex": op["regex"], "which": w, "at": tbe, "expected": ms[w][1], "xml_before": before["xml"][-400:], "xml_after": xml_after[-400:]}))
+                outcome += f":which={w}/{min(len(ms), 3)}"
     return out, sit, outcome
 
 
